@@ -118,6 +118,28 @@ func c01Families(c *engine.Ctx) {
 			c.Count("distinct_nontrivial", 1)
 		}
 	}
+	// one identifier used more often than a 16-bit counter can count, followed by the constructs that consult the counter
+	for _, n := range []int{65534, 65535, 65536, 65537, 131071, 131072} {
+		for _, head := range []string{"", "var a;", "let a;", "function f(){", "x=()=>{"} {
+			for _, tail := range []string{"a=>1", "(a)=>1", "async a=>1", "(a,b)=>1", "({a})=>1", "(a)", "a", "var a", "x={a}", "[a]=b", "a:;"} {
+				k++
+				if !c.Mine(k) {
+					continue
+				}
+				closer := ""
+				if strings.HasSuffix(head, "{") {
+					closer = "}"
+				}
+				src := head + strings.Repeat("a;", n) + tail + closer
+				for _, o := range jsOptionNames[:2] {
+					in := append(make([]byte, 0, len(src)+1), src...)
+					c.Exec(jsp, in, map[string]string{"opts": o})
+					c.Count("exec", 1)
+					c.Count("many-uses-programs", 1)
+				}
+			}
+		}
+	}
 	counts := []int{0, 1, 10, 19, 20, 21, 30, 57, 60, 63, 64, 65, 100}
 	for _, tm := range longLineTemplates() {
 		spaces := []string{tm.space}
